@@ -60,7 +60,7 @@ def run_component_case(c, want_jac=True):
         osz = {o: real[o].size for o in outputs}
         isz = {i: np.asarray(inputs[i]).size for i in inputs}
         rJ = core.dense_from_blocks(comp_jacobian(prob, outputs, list(inputs)), outputs, list(inputs), osz, isz)
-        ok, msg = close_jac(rJ, mJ, rtol=jtol, atol=c.get("jatol", 0.0))
+        ok, msg = close_jac(rJ, mJ, rtol=jtol, atol=c.get("jatol", 0.0), fvals=real_flat, xvals=in_flat)
         if not ok:
             out.append(dict(kind="jacobian", component=c["name"], size=c["size"], detail=msg))
     else:
@@ -73,7 +73,7 @@ def run_component_case(c, want_jac=True):
                      n_in=int(in_flat.size), n_out=int(real_flat.size))
 
 
-def component_suite(names, stats, tier=None, reps=None, want_jac=True, label="component"):
+def component_suite(names, stats, tier=None, reps=None, want_jac=True, label="component", value_only=()):
     tier = tier or core.TIER
     reps = reps if reps is not None else (3 if tier == "thorough" else 1)
     for name in names:
@@ -86,7 +86,7 @@ def component_suite(names, stats, tier=None, reps=None, want_jac=True, label="co
                     rng = core.rng_for("comp", name, nx, ny, sym, rep)
                     try:
                         c = component_case(name, rng, nx, ny, sym)
-                        dis, info = run_component_case(c, want_jac=want_jac and sp["jac"])
+                        dis, info = run_component_case(c, want_jac=want_jac and sp["jac"] and name not in value_only)
                     except DriverError as e:
                         dis = [dict(kind="driver-error", component=name, size=(nx, ny, sym), detail=str(e))]
                         info = dict(nontrivial=False, hash=case_hash(name, nx, ny, sym, rep), n_in=0, n_out=0)
